@@ -3,6 +3,7 @@ package props
 import (
 	"bytes"
 	"context"
+	"errors"
 	"fmt"
 	"math/rand"
 	"os"
@@ -20,6 +21,7 @@ import (
 	"github.com/attestantio/dirk/core"
 	"github.com/attestantio/dirk/rules"
 	"github.com/attestantio/dirk/services/locker"
+	"github.com/attestantio/dirk/util/verifhook"
 	e2wtypes "github.com/wealdtech/go-eth2-wallet-types/v2"
 )
 
@@ -398,7 +400,17 @@ func c15Child(cfg Cfg) int {
 	fmt.Printf("STAT steered_schedules %d\n", schedules)
 	fmt.Printf("STAT steering_rendezvous_met %d\n", met)
 
-	// (2) Sustained random load.
+	// (2) Sustained random load.  One storage operation in 41 fails (injected at the storage hook): a request that
+	// fails must still finish and release what it holds.
+	var hookCalls, faults atomic.Int64
+	verifhook.Set(func(name string, _ [][]byte) error {
+		if strings.HasSuffix(name, ".pre") && hookCalls.Add(1)%41 == 0 {
+			faults.Add(1)
+			return errors.New("injected storage fault")
+		}
+		return nil
+	})
+	defer verifhook.Set(nil)
 	g.yield = true
 	total := cfg.N(5000, 100000)
 	if raceMode {
@@ -452,6 +464,7 @@ func c15Child(cfg Cfg) int {
 	fmt.Printf("STAT stress_requests %d\n", total)
 	fmt.Printf("STAT requests_abandoned_by_client %d\n", cancelled.Load())
 	fmt.Printf("STAT completions %d\n", completions.Load())
+	fmt.Printf("STAT injected_storage_faults %d\n", faults.Load())
 	fmt.Printf("STAT locker_events %d\n", g.events.Load())
 	fmt.Printf("STAT max_wait_graph_size %d\n", g.maxSize)
 	fmt.Printf("STAT distinct_lock_order_edges %d\n", len(g.edges))
